@@ -87,7 +87,7 @@ func modeFor(prop string) (*histMode, error) {
 			},
 			roracle: hist.CheckPresence}, nil
 	case "C11":
-		return &histMode{flavors: []string{"counter", "object", "array"}, proto: true,
+		return &histMode{flavors: []string{"counter", "object", "array"}, proto: true, smallSnap: true,
 			gen:     hist.GenConfig{MinClients: 2, MaxClients: 4, MinSteps: 8, MaxSteps: 30, Detach: true, Deactivate: true, Late: true},
 			oracle:  func(h *hist.History, o *hist.Outcome) []hist.Problem { return nil },
 			roracle: hist.CheckMinVVExact}, nil
